@@ -3,11 +3,11 @@ CONSTANTS
   DepthTable <- DocumentedDepthTable
   MRoutes = {"deepcopy", "clone2", "clone1", "tns_copy", "ctor", "copy", "clone0", "ctor_newns", "extract", "extract_ref"}
   MOps = {"SetLabel", "SetLength", "SetNodeLabel", "RelabelTaxon", "AddTaxon", "AddAnnotation", "ChangeAnnotation", "ChangeBoundAttr", "Encode", "Structural", "SetCell", "AddComment"}
-  MClasses = {"Tree", "TreeList", "Matrix", "Namespace"}
+  MClasses = {"TreeList"}
   MConfigs = {"default"}
-  XrefShapes = FALSE
+  XrefShapes = TRUE
   MaxSteps = 1
   MaxCopies = 2
-  Bug = "share_comments"
+  Bug = "xref_target_kept"
 INVARIANT SharingExactlyAsDocumented
 CHECK_DEADLOCK FALSE
